@@ -335,6 +335,11 @@ func c19States(c *c19Ctx, rng *rand.Rand) []string {
 	if len(s) > 9 {
 		out = append(out, s[:8], s[:9], s[:len(s)/2], s[1:], strings.ToUpper(s))
 	}
+	// nonce parts of every length around the 8-character infix of per-request CSRF cookie names, plain and base64url (round 8)
+	for n := 0; n <= 12; n++ {
+		v := strings.Repeat("n", n) + ":/x"
+		out = append(out, v, base64.RawURLEncoding.EncodeToString([]byte(v)))
+	}
 	return out
 }
 
